@@ -104,7 +104,7 @@ SPECS["C01"] = {
          "thorough": {"params": [0, 1, 2, 3], "flags": ["-preempt", "2", "-par", "4"], "procs": 4}, "flags": [],
          "expect_reach": ["end", "with-deadline", "timed-out", "foreign-clones"]},
     ])],
-    "level_text": "(a) One-step contracts of the real registry from an ARBITRARY pre-state (the channels map is an unknown map of any size; a registered channel is empty or full): Register / Unregister / Execute with an arbitrary op-id string (real strconv.ParseUint on symbolic bytes) store, remove or deliver to exactly the caller's own channel, refuse an in-flight duplicate, discard unknown ids, never overwrite a delivered frame, and leave every other registration untouched (probe key) - this covers any number of concurrent callers and any history because each step is atomic under the registry mutex. (b) Bounded symbolic execution with threads of the real fAdapterTransport (Open/readLoop/TFramedTransport/Request/registry) over a harness pipe: 2 concurrent callers (one optionally with a deadline), an adversarial peer sending k frames in any order / multiplicity / with unknown ids: a caller succeeds only with its own frame, caller 2 always gets its own, failures are only own timeouts, no registration is left. (c) one step of fNatsTransport.handler from an arbitrary registry with independent symbolic op ids in the frame and in the reply-subject suffix: a frame reaches the request whose op id it carries and never the request that merely owns the reply subject; a 503 status message is routed by the subject suffix. (d) two requests issued one after the other with 1..3 copies of the first response arriving at any time: the later request completes only with its own frame. Outside: NATS Request under schedules (its body is the same Register / select / Unregister shape), HTTP, >2 callers in (b).",
+    "level_text": "(a) One-step contracts of the real registry from an ARBITRARY pre-state (the channels map is an unknown map of any size; a registered channel is empty or full): Register / Unregister / Execute with an arbitrary op-id string (real strconv.ParseUint on symbolic bytes) store, remove or deliver to exactly the caller's own channel, refuse an in-flight duplicate, discard unknown ids, never overwrite a delivered frame, and leave every other registration untouched (probe key) - this covers any number of concurrent callers and any history because each step is atomic under the registry mutex. (b) Bounded symbolic execution with threads of the real fAdapterTransport (Open/readLoop/TFramedTransport/Request/registry) over a harness pipe: 2 concurrent callers (one optionally with a deadline), an adversarial peer sending k frames in any order / multiplicity / with unknown ids: a caller succeeds only with its own frame, caller 2 always gets its own, failures are only own timeouts, no registration is left. (c) one step of fNatsTransport.handler from an arbitrary registry with independent symbolic op ids in the frame and in the reply-subject suffix: a frame reaches the request whose op id it carries and never the request that merely owns the reply subject; a 503 status message is routed by the subject suffix. (d) two requests issued one after the other with 1..3 copies of the first response arriving at any time: the later request completes only with its own frame. Outside: HTTP, >2 callers in (b).",
     "level_note": "Trusted: go/ssa, gose interpreter and scheduler model, z3. " + SCHED_NOTE,
     "bounds": {"quick": "(a) op-id strings 0..3 arbitrary bytes; (b) k <= 2 adversarial frames, delay bound 1", "thorough": "(a) 0..4 bytes; (b) k <= 3, delay bound 2"},
     "assumptions": ["(a) the unknown registry is injective and its channels have capacity 1 (every Register call site passes make(chan []byte, 1))"],
@@ -118,7 +118,7 @@ SPECS["C06"] = {
          "thorough": {"params": [3, 4, 5], "flags": ["-preempt", "2", "-par", "5"], "procs": 3}, "expect_reach": ["end", "triple-duplicate"]},
         {"name": "VerifC06_NatsDuplicateContext", "native": False, "flags": ["-timer-preempt=false"], "quick": {"params": [0, 1], "flags": ["-preempt", "1"]}, "thorough": {"params": [0, 1], "flags": ["-preempt", "3"]}},
     ])],
-    "level_text": "(a) One-step contract from an arbitrary registry state (unknown map, registered channel empty or full): Execute of any well-formed frame returns without blocking - for every state and frame, so no number of duplicates, unknown or late responses can stall the reader. (b) Bounded symbolic execution with threads of the real adapter transport: one caller without deadline, an adversarial prefix of k frames (own id xN, unknown ids), then a FRESH request whose response must still be delivered (a wedged reader shows up as a deadlock). Outside: NATS (its handler calls the same Execute/dispatch), more than k frames in (b).",
+    "level_text": "(a) One-step contract from an arbitrary registry state (unknown map, registered channel empty or full): Execute of any well-formed frame returns without blocking - for every state and frame, so no number of duplicates, unknown or late responses can stall the reader. (b) Bounded symbolic execution with threads of the real adapter transport: one caller without deadline, an adversarial prefix of k frames (own id xN, unknown ids), then a FRESH request whose response must still be delivered (a wedged reader shows up as a deadlock). Outside: more than k frames in (b).",
     "level_note": "Trusted: go/ssa, gose interpreter and scheduler model, z3. " + SCHED_NOTE,
     "bounds": {"quick": "(b) k <= 4 frames, delay bound 1", "thorough": "(b) k <= 5 frames, delay bound 2"},
     "assumptions": [],
@@ -131,7 +131,7 @@ SPECS["C17"] = {
         {"name": "VerifC17_SharedContext", "native": False, "quick": {"params": [0], "flags": ["-preempt", "2"]}, "thorough": {"params": [0], "flags": ["-preempt", "3"]}, "expect_reach": ["end", "two-writers"]},
         {"name": "VerifC17_CloneIndependent", "quick": {"params": [0, 1, 2], "bound": 1}, "thorough": {"params": [0, 1, 2], "bound": 2}, "expect_reach": ["end", "empty-response-headers", "foreign-context"]},
     ])],
-    "level_text": "(a) From an ARBITRARY value of the op-id counter (symbolic uint64), 2 (3) goroutines that create / Clone() / frugal.Clone() contexts concurrently plus one sequential context: all op ids pairwise different and different from every id issued before (decided on the uint64 level; strconv format/parse of the symbolic id is an injective tag), and the counter is only touched through sync/atomic (watched cell). (b) Two goroutines applying any pair of FContext operations to one shared context: every access to the three maps holds the context mutex in the right mode (lock-discipline monitor), last-writer-wins. (c) Clone (method and package function): starts equal except for a fresh op id, and a mutation of either side (request/response header, timeout, ephemeral property) is invisible to the other. Outside: >3 goroutines; plain data races on fields other than the watched counter and guarded maps are not monitored.",
+    "level_text": "(a) From an ARBITRARY value of the op-id counter (symbolic uint64), 2 (3) goroutines that create / Clone() / frugal.Clone() contexts concurrently plus one sequential context: all op ids pairwise different and different from every id issued before (decided on the uint64 level; strconv format/parse of the symbolic id is an injective tag), and the counter is only touched through sync/atomic (watched cell). (b) Two goroutines applying any pair of FContext operations to one shared context: every access to the three maps holds the context mutex in the right mode (lock-discipline monitor), last-writer-wins. (c) Clone (method and package function): starts equal except for a fresh op id, and a mutation of either side (request/response header, timeout, ephemeral property) is invisible to the other. Outside: >3 goroutines.",
     "level_note": "Trusted: go/ssa, gose interpreter and scheduler model, z3. " + SCHED_NOTE,
     "bounds": {"quick": "(a) 2 workers, delay bound 2; (b) delay bound 2; (c) names/values 0..1 bytes", "thorough": "(a) 3 workers; (b) delay bound 3; (c) 0..2 bytes"},
     "assumptions": [],
@@ -148,7 +148,7 @@ SPECS["C13"] = {
         {"name": "VerifC13_NatsReturns", "native": False, "quick": {"params": [0, 1, 2], "flags": ["-preempt", "2"]}, "thorough": {"params": [0, 1, 2], "flags": ["-preempt", "3"]},
          "expect_reach": ["end", "timed-out", "answered", "stalled-flush"]},
     ])],
-    "level_text": "(a) For EVERY positive timeout below 2^62 ns (symbolic int64; the /1e6 and *1e6 kernel is decided by cvc5's integer encoding of bit-vectors because bit-blasting does not terminate) SetTimeout/Timeout yields a positive deadline within 1 ms (the wire granularity) of the requested one, so ToContext always installs a deadline. (b)/(c) Bounded symbolic execution with threads and a virtual clock of the real fAdapterTransport.Request/Oneway/send and fNatsTransport.Request: with a silent peer, a late answer (before or after the deadline), a write that blocks forever or a flush that blocks forever the call returns (a call that never returns is a deadlock of the harness), fails only with TIMED_OUT, succeeds only with the peer's answer, and leaves no registration behind; timeouts 0.5 ms, 1 ms, 2.5 ms. Outside: HTTP transport (net/http internals), wall-clock allowances (time is virtual: any delay is possible).",
+    "level_text": "(a) For EVERY positive timeout below 2^62 ns (symbolic int64; the /1e6 and *1e6 kernel is decided by cvc5's integer encoding of bit-vectors because bit-blasting does not terminate) SetTimeout/Timeout yields a positive deadline within 1 ms (the wire granularity) of the requested one, so ToContext always installs a deadline. (b)/(c) Bounded symbolic execution with threads and a virtual clock of the real fAdapterTransport.Request/Oneway/send and fNatsTransport.Request: with a silent peer, a late answer (before or after the deadline), a write that blocks forever or a flush that blocks forever the call returns (a call that never returns is a deadlock of the harness), fails only with TIMED_OUT, succeeds only with the peer's answer, and leaves no registration behind; timeouts 0.5 ms, 1 ms, 2.5 ms. Outside: net/http internals (modelled by their contract), wall-clock allowances (time is virtual: any delay is possible).",
     "level_note": "Trusted: go/ssa, gose interpreter and scheduler model, z3, cvc5 1.0 (--solve-bv-as-int=sum) for the division kernel; time/context are engine models (a timer may fire at any scheduling point once it is the earliest pending one); nats.go is the contract model in harness/libgo/zz_verif_nats.go. " + SCHED_NOTE,
     "bounds": {"quick": "timeouts: all 0<d<2^62 ns for (a); three values for (b)/(c); delay bound 2", "thorough": "delay bound 3"},
     "assumptions": ["nats.go behaves as the contract model states"],
@@ -167,7 +167,7 @@ SPECS["C15"] = {
         {"name": "VerifC15_RepeatedOutages", "native": False, "quick": {"params": [0, 1], "flags": ["-preempt", "1"]}, "thorough": {"params": [0, 1, 2], "flags": ["-preempt", "2"]},
          "expect_reach": ["end", "later-outage-with-refusals", "budget-exhausted"]},
     ])],
-    "level_text": "Bounded symbolic execution with threads of the real fAdapterTransport life-cycle (Open, readLoop, readFrame, TFramedTransport, close, Closed, IsOpen, SetMonitor, monitorRunner) over a harness byte stream: 2 (3) generations of open -> failure -> reopen where the failure is a clean EOF at a frame boundary, an EOF inside a frame (cut inside the size prefix, after it, inside the headers, one byte short; thorough: every offset), a read error, an unprocessable frame, or a user Close: every generation ends closed, publishes exactly one close cause (nil required for a user close, non-nil required for errors) and then closes the channel, reports ALREADY_OPEN / NOT_OPEN consistently, never deadlocks; with a monitor attached every unclean close is notified and followed by a reopen, repeatedly, and the final clean close is notified. With the default policy (MaxReopenAttempts 1..2) attached and 2..3 (4) outages in which 0..budget reopen attempts are refused, every outage gets the full budget again. Sequentially, BaseFTransportMonitor + monitorRunner.attemptReopen with symbolic MaxReopenAttempts (0..3), symbolic InitialWait <= MaxWait (any int64 below 2^55) and 0..4 failing Opens: attempts never exceed the maximum, no wait exceeds MaxWait, success iff an attempt within the budget succeeds. Outside: NATS/HTTP transports, write-side failures, real sockets.",
+    "level_text": "Bounded symbolic execution with threads of the real fAdapterTransport life-cycle (Open, readLoop, readFrame, TFramedTransport, close, Closed, IsOpen, SetMonitor, monitorRunner) over a harness byte stream: 2 (3) generations of open -> failure -> reopen where the failure is a clean EOF at a frame boundary, an EOF inside a frame (cut inside the size prefix, after it, inside the headers, one byte short; thorough: every offset), a read error, an unprocessable frame, or a user Close: every generation ends closed, publishes exactly one close cause (nil required for a user close, non-nil required for errors) and then closes the channel, reports ALREADY_OPEN / NOT_OPEN consistently, never deadlocks; with a monitor attached every unclean close is notified and followed by a reopen, repeatedly, and the final clean close is notified. With the default policy (MaxReopenAttempts 1..2) attached and 2..3 (4) outages in which 0..budget reopen attempts are refused, every outage gets the full budget again. Sequentially, BaseFTransportMonitor + monitorRunner.attemptReopen with symbolic MaxReopenAttempts (0..3), symbolic InitialWait <= MaxWait (any int64 below 2^55) and 0..4 failing Opens: attempts never exceed the maximum, no wait exceeds MaxWait, success iff an attempt within the budget succeeds. Outside: HTTP transport, write-side failures, real sockets.",
     "level_note": "Trusted: go/ssa, gose interpreter and scheduler model, z3. time.Sleep is redirected to a logging stub in the policy harness. " + SCHED_NOTE,
     "bounds": {"quick": "2 generations, 6 cut offsets, delay bound 1; monitor: 2-3 failures", "thorough": "3 generations, every cut offset; monitor: delay bound 2"},
     "assumptions": [],
@@ -197,7 +197,7 @@ SPECS["C07"] = {
              "expect_reach": ["end", "own", "other-operation", "other-topic"]},
         ]},
     ],
-    "level_text": "Bounded symbolic execution with threads of the real publish path (FStandardClient.Publish/prepareMessage, fNatsPublisherTransport.Publish) and the real subscriber transports (fNatsSubscriberTransport.Subscribe/putMessageToWorkerQueue/worker/Unsubscribe; fStompSubscriberTransport.Subscribe/processMessages/ackMessage/Unsubscribe) with a receive callback of the generated shape (ReadRequestHeader, ReadMessageBegin, op check, payload, handler): for every sequence of n messages, each one valid (symbolic payload and header), shorter than 4 bytes, with a corrupt header block, for another operation, on another topic, or (STOMP) with a failing handler, the handler runs exactly once per valid message of this topic and operation, in publish order, with equal payload, header and correlation id; bad messages never stop later ones (a lost message is a deadlock of the harness); STOMP acks exactly the successfully handled messages once; nothing published after Unsubscribe returned reaches the handler; no goroutine panics; two subscribers made by one factory (builder-made or plain) on different topics each receive exactly their own messages, and unsubscribing one leaves the other working. Outside: real brokers, multi-worker ordering, generated recv code (hand-written equivalent here).",
+    "level_text": "Bounded symbolic execution with threads of the real publish path (FStandardClient.Publish/prepareMessage, fNatsPublisherTransport.Publish) and the real subscriber transports (fNatsSubscriberTransport.Subscribe/putMessageToWorkerQueue/worker/Unsubscribe; fStompSubscriberTransport.Subscribe/processMessages/ackMessage/Unsubscribe) with a receive callback of the generated shape (ReadRequestHeader, ReadMessageBegin, op check, payload, handler): for every sequence of n messages, each one valid (symbolic payload and header), shorter than 4 bytes, with a corrupt header block, for another operation, on another topic, or (STOMP) with a failing handler, the handler runs exactly once per valid message of this topic and operation, in publish order, with equal payload, header and correlation id; bad messages never stop later ones (a lost message is a deadlock of the harness); STOMP acks exactly the successfully handled messages once; nothing published after Unsubscribe returned reaches the handler; no goroutine panics; two subscribers made by one factory (builder-made or plain) on different topics each receive exactly their own messages, and unsubscribing one leaves the other working. Outside: real brokers, multi-worker ordering.",
     "level_note": "Trusted: go/ssa, gose interpreter and scheduler model, z3. " + NATS_NOTE + SCHED_NOTE,
     "bounds": {"quick": "n <= 2 messages, payload 1 byte, header 1 byte, delay bound 1", "thorough": "n <= 3 messages, payload 2 bytes"},
     "assumptions": ["broker contract as modelled", "single worker (default)"],
@@ -225,11 +225,12 @@ SPECS["C14"] = {
          "expect_reach": ["end"]},
         {"name": "VerifC14_ConcurrentReplies", "native": False, "quick": {"params": [0, 1, 4], "flags": ["-preempt", "1"], "procs": 3}, "thorough": {"params": [0, 1, 2, 3, 4], "flags": ["-preempt", "2", "-par", "2"], "procs": 5}},
         {"name": "VerifC14_NatsServerReplies", "native": False, "quick": {"params": [0, 1, 2, 3, 4], "bound": 0, "procs": 5}, "thorough": {"params": [0, 1, 2, 3, 4], "bound": 1, "procs": 5}},
+        {"name": "VerifC14_NatsServeWorkers", "native": False, "quick": {"params": [0, 1], "flags": ["-preempt", "1"]}, "thorough": {"params": [0, 1], "flags": ["-preempt", "2"]}},
         {"name": "VerifC14_HTTPReplies", "quick": {"params": [0, 1, 2, 3, 4, 5], "procs": 6}, "thorough": {"params": [0, 1, 2, 3, 4, 5], "procs": 6}, "expect_reach": ["end", "over-limit"]},
         {"name": "VerifC14_SurvivesFailedReply", "native": False, "quick": {"params": [0, 1, 2, 3, 4], "procs": 5}, "thorough": {"params": [0, 1, 2, 3, 4], "procs": 5},
          "expect_reach": ["end", "first-answered", "first-unanswerable"]},
     ])],
-    "level_text": "Bounded symbolic execution of the real server reply path (FBaseProcessor.Process, FBaseProcessorFunction.SendReply/SendError/sendError/trapError, Method.Invoke through the reflect boundary, FSimpleServer.accept with TFramedTransport) with processor functions written exactly in the shape the generator emits (two-way 'ping' with a declared exception, oneway 'fire') and the real TBinaryProtocol: for every request kind (known method, unknown method name of arbitrary bytes, arguments truncated at 1..6 bytes from the end, wrong-typed argument field, oneway) x handler outcome (value, declared exception, undeclared error, TApplicationException with any type id 0..200) the output is exactly one well-formed frame (judged by an independent reference reader) carrying the request's op id and correlation id and the right REPLY / EXCEPTION kind (UNKNOWN_METHOD, PROTOCOL_ERROR, INTERNAL_ERROR, the handler's own type), nothing for a successful oneway; the handler runs exactly once with the sent argument; a following request on the same processor / the same connection loop is answered correctly; with two requests processed concurrently on a shared output protocol every write and flush happens under the write mutex (lock-discipline monitor). Outside: the generated processor code itself (hand-written equivalent here), HTTP/NATS server plumbing (C05/C20), compact/JSON protocols.",
+    "level_text": "Bounded symbolic execution of the real server reply path (FBaseProcessor.Process, FBaseProcessorFunction.SendReply/SendError/sendError/trapError, Method.Invoke through the reflect boundary, FSimpleServer.accept with TFramedTransport) with processor functions written exactly in the shape the generator emits (two-way 'ping' with a declared exception, oneway 'fire') and the real TBinaryProtocol: for every request kind (known method, unknown method name of arbitrary bytes, arguments truncated at 1..6 bytes from the end, wrong-typed argument field, oneway) x handler outcome (value, declared exception, undeclared error, TApplicationException with any type id 0..200) the output is exactly one well-formed frame (judged by an independent reference reader) carrying the request's op id and correlation id and the right REPLY / EXCEPTION kind (UNKNOWN_METHOD, PROTOCOL_ERROR, INTERNAL_ERROR, the handler's own type), nothing for a successful oneway; the handler runs exactly once with the sent argument; a following request on the same processor / the same connection loop is answered correctly; with two requests processed concurrently on a shared output protocol every write and flush happens under the write mutex (lock-discipline monitor). Outside: the generated processor code itself (hand-written equivalent here; the generated one is exercised by C03), compact/JSON protocols.",
     "level_note": "Trusted: go/ssa, gose interpreter and scheduler model, z3; reflect is an engine boundary (ValueOf/Call/Interface/MethodByName implemented by the engine). " + SCHED_NOTE,
     "bounds": {"quick": "argument strings 0 bytes + fixed, 2 requests in a row, delay bound 1", "thorough": "argument strings 0..1 symbolic bytes, delay bound 2"},
     "assumptions": [],
@@ -254,7 +255,7 @@ SPECS["C16"] = {
             {"name": "VerifC16_GeneratedSubscribers", "flags": ["-max-decisions", "3000"], "quick": {"params": [0]}, "thorough": {"params": [0]}, "expect_reach": ["end", "spare-capacity"]},
         ]},
     ],
-    "level_text": "Bounded symbolic execution of the real middleware machinery (NewMethod, composeMiddleware, newInvocationHandler, Method.Invoke, Method.AddMiddleware, FServiceProvider.GetMiddleware) wired exactly as every generated constructor wires it (middleware = append(middleware, provider.GetMiddleware()...); NewMethod(target, target.method, name, middleware)), with a constructor middleware and b provider middleware (a,b <= 2; thorough <= 3), each one logging entry/exit and - under symbolic flags - rewriting the argument and/or the result with a symbolic suffix, the caller's variadic slice with or without spare capacity, optionally one AddMiddleware afterwards, target returning a value or an error: the target is invoked exactly once; every middleware is entered and left exactly once; entry order is [added later] provider[b-1..0] constructor[a-1..0], exit order the reverse; the target sees the argument with all rewrites applied outermost-first and the caller sees the result with all rewrites innermost-first; an error passes through; two methods built one after the other from the same variadic slice (with 0..2 spare capacity, with or without provider middleware, with or without middleware added later) each run exactly their own chain; for methods whose only result is an error a middleware that rewrites the error of one call never leaks into another call. Outside: the generated constructors themselves (same statements, hand-written), publisher/subscriber wiring (FScopeProvider.GetMiddleware is the same copy), more than 3+3 middleware.",
+    "level_text": "Bounded symbolic execution of the real middleware machinery (NewMethod, composeMiddleware, newInvocationHandler, Method.Invoke, Method.AddMiddleware, FServiceProvider.GetMiddleware) wired exactly as every generated constructor wires it (middleware = append(middleware, provider.GetMiddleware()...); NewMethod(target, target.method, name, middleware)), with a constructor middleware and b provider middleware (a,b <= 2; thorough <= 3), each one logging entry/exit and - under symbolic flags - rewriting the argument and/or the result with a symbolic suffix, the caller's variadic slice with or without spare capacity, optionally one AddMiddleware afterwards, target returning a value or an error: the target is invoked exactly once; every middleware is entered and left exactly once; entry order is [added later] provider[b-1..0] constructor[a-1..0], exit order the reverse; the target sees the argument with all rewrites applied outermost-first and the caller sees the result with all rewrites innermost-first; an error passes through; two methods built one after the other from the same variadic slice (with 0..2 spare capacity, with or without provider middleware, with or without middleware added later) each run exactly their own chain; for methods whose only result is an error a middleware that rewrites the error of one call never leaks into another call. Outside: more than 3+3 middleware, generated code of programs beyond the catalogue.",
     "level_note": "Trusted: go/ssa, gose interpreter, z3; reflect is an engine boundary (ValueOf/Call/Interface/TypeOf/MethodByName implemented by the engine with Go's argument-assignability and zero-Value panics).",
     "bounds": {"quick": "a,b <= 2 (7 of the 9 combinations)", "thorough": "a,b <= 3"},
     "assumptions": [],
@@ -352,11 +353,65 @@ SPECS["C03"] = {
     "assumptions": [],
 }
 
+
+# ---- what the entries added later decide (appended to the level texts above) ----
+RACE_NOTE = ("Every entry that runs goroutines also runs the engine's happens-before data-race monitor (vector clocks over mutexes, channels, WaitGroup, Once, atomics, sync.Pool, go statements, timers and "
+             "context cancellation; FastTrack-style last-write / last-reads per heap cell, map and slice element) on the accesses made by the code under test: two conflicting accesses not ordered by "
+             "happens-before are reported even if the explored schedule did not interleave them badly. Harness accesses are treated as synchronisation, so the monitor can miss races, never invent them.")
+
+_MORE = {
+    "C01": " Added: (e) two goroutines calling through one FStandardClient over a transport that looks at the payload only after a scheduling point (each caller gets the answer to its own symbolic argument, handler sees each once); the two callers of (b) may use clones of a context implemented OUTSIDE the package (generic branch of Clone: distinct op ids), and responses may arrive one per read or coalesced into one segment.",
+    "C03": " Added: methods whose names differ only in capitalisation (fetchUrl / fetchURL), a method whose argument ids are not in declaration order (route(2: to, 1: sender)), a typedef-of-enum argument and return type, and two goroutines calling through one generated client over a transport that reads the frame late (each caller observes the value for its own argument).",
+    "C04": " Added: the stream reader is also driven through a transport that hands out 1..3 bytes per Read (same map, same rest); a header block written by another implementation (any user headers, op id mandatory, correlation id and timeout optional) becomes a context whose request headers are exactly the wire map and whose response headers echo exactly op id (+ cid iff present); the response direction leaves request headers untouched.",
+    "C05": " Added: the adapter transport's read loop on an arbitrary socket stream; fNatsServer.processFrame and a subscriber callback of the generated shape on arbitrary frames; a well-formed ~110-byte request / publish frame with an arbitrary 4-byte window at every (second) offset through server -> processor -> processor function and through the subscriber callback, each followed by a well-formed message that must still be served; the HTTP handler and HTTP client transport on arbitrary bodies, and a two-way FStandardClient.Call over HTTP whose peer answers with an arbitrary decoded body incl. the empty frame; a reply or error reply that cannot be written into a bounded output buffer (any limit 1..250) leaves the processor usable (no leaked write mutex).",
+    "C06": " Added: frames may be coalesced into one read segment; NATS client transport: a second request on the SAME FContext while the first is in flight is rejected and must not disturb the first, whose response (arriving afterwards) still completes it (timers fire only when nothing else can run).",
+    "C07": " Added: two goroutines publishing through one scope client over a publisher that looks at the payload late (each topic receives the frame meant for it); a backlog larger than the 64-slot work queue with a slow handler (nothing dropped, order kept; NATS channel subscriptions are modelled with their drop-on-full semantics); GENERATED publisher and subscriber of the catalogue scope `Events prefix a.{user}` over a bus transport (exactly once, own operation and topic variable only, headers incl. _topic_user).",
+    "C09": " Added: the handler may make an onward FStandardClient.Call with the inbound context itself or with a clone before replying (reply still carries op id, cid and the handler's response header); the same context is used for a second call after SetTimeout with nothing else touched (the second handler observes the new timeout).",
+    "C11": " Added: (4) Frugal.validate() on programs in which an undefined type name may occur bare or as list / set / map element at struct fields (after a valid container of the same kind), method arguments / return types and scope operations: rejected iff it occurs; (5) the semantic actions the grammar runs for enum declarations (onEnumValue1 / onEnum1 of grammar.peg.go, called directly) on 2..4 (5) values with any mix of implicit and arbitrary explicit numbers: numbering never makes an implicit value collide with an earlier one.",
+    "C12": " Added: (e) real HTTP client transport with a response size limit against the real handler (Do model forwards the real *http.Request): for 12 limits x 7 reply sizes around them, twice in a row, the client either receives the reply intact or RESPONSE_TOO_LARGE exactly when the server answered 413; (f) see C05: a reply that does not fit a bounded buffer never wedges the processor.",
+    "C13": " Added: (d) HTTP transport with a peer model of http.Client.Do that honours the request context (silent; drops the connection after 1/4..3/4 of the timeout and is silent afterwards; answers after that time): Request / Oneway return no later than the FContext timeout in virtual time, TIMED_OUT for a silent peer; the same elapsed-time bound is asserted for the adapter and NATS transports; NATS with a connection that accepts writes but never answers PING (Flush blocks for nats.go's own 10 s).",
+    "C14": " Added: the same request kinds x outcomes through fNatsServer.processFrame (exactly one message on the request's reply subject, nothing anywhere else) and through the HTTP handler (incl. a caller whose limit is exceeded: 413, then an unaffected next reply); the NATS server as it runs (Serve, 1..2 workers, requests through the subscription, handler yields): two concurrent requests each get exactly one well-formed reply on their own subject.",
+    "C15": " Added: two goroutines calling Open at the same time on a transport whose dial takes time (exactly one succeeds, the other ALREADY_OPEN; one close notification); NATS client transport: Close while the connection is RECONNECTING really closes (cause published, subscription gone) and the transport opens again afterwards.",
+    "C16": " Added: FBaseProcessor with a constructor list and 1..2 AddMiddleware calls using closures of one constructor function (each runs exactly once per request, later-added outermost); GENERATED constructors of the catalogue (client, processor, publisher, subscriber): provider middleware wraps constructor middleware, each exactly once; generated route(2: to, 1: sender): client- and server-side middleware see the arguments in the handler's parameter positions and a rewrite of one position changes exactly that parameter; two generated subscribers built from one variadic slice with spare capacity and different providers (known finding F18).",
+    "C17": " Added: (b) also serialises the shared context (WriteRequestHeader / WriteResponseHeader) while another goroutine mutates it; (c) also clones a context implemented outside the package through the generic branch of Clone (original, clone and sibling carry three different op ids).",
+    "C18": " Added: a field added to 2..3 unchanged fields at any id 1..6 (before, between, after) and any position of the declaration, any modifier, in structs / exceptions / arguments: breaking iff required; throws clauses of 0..2 exceptions on either side (fields of a throws clause are Optional, as the parser makes them).",
+    "C20": " The slow handler now blocks for 10 s of virtual time (instead of an instantaneous clock jump), so a Serve that stops waiting for its workers is observable.",
+    "C02": " Added: c02_basic again with the `slim` generator option (Read/Write through lib/go/encoder.go); programs with includes are generated with one recursive compiler run (-r) and the catalogue declares same-named types in the including and the included program (struct Level / enum c02_base.Level, struct Label / typedef c02_base.Label).",
+    "C08": " Added: one recursive run (-r) over a program that includes another one declaring a scope of the same name with a different prefix, for Java / Dart / Python: each file's publisher and subscriber use the file's own prefix.",
+}
+for _k, _t in _MORE.items():
+    SPECS[_k]["level_text"] += _t
+for _k in ("C01", "C03", "C06", "C07", "C13", "C14", "C15", "C17", "C20"):
+    SPECS[_k]["level_note"] = SPECS[_k].get("level_note", "") + " " + RACE_NOTE
+
+HTMLGEN = {"dir": REPO + "/compiler/generator/html", "overlay": "html"}
+
+SPECS["C19"] = {
+    "level": "model_checking",
+    "groups": [dict(HTMLGEN, entries=[
+        {"name": "VerifC19_HTMLIndexOrder", "native": False, "quick": {"params": [0, 1]}, "thorough": {"params": [0, 1, 2]}, "expect_reach": ["end", "same-module-name-twice"]},
+    ])],
+    # every `range` over a Go map in the compiler packages, computed from go/ssa at check time; a site that is
+    # not listed here makes the check inconclusive (somebody has to decide whether its order can reach output)
+    "maprange": {
+        "dir": REPO,
+        "known": {
+            "compiler/generator/html/generator.go|github.com/Workiva/frugal/compiler/generator/html.transitiveIncludes": "decided by VerifC19_HTMLIndexOrder",
+            "compiler/generator/html/generator.go|github.com/Workiva/frugal/compiler/generator/html.transitiveIncludesRec": "decided by VerifC19_HTMLIndexOrder",
+            "compiler/generator/dartlang/generator.go|(*github.com/Workiva/frugal/compiler/generator/dartlang.Generator).addToPubspec": "keys of a set, sorted with sort.Strings before use (distinct strings); the function itself does file I/O and YAML and is not executed",
+            "compiler/parser/audit.go|(*github.com/Workiva/frugal/compiler/parser.Auditor).checkFields": "order of audit messages only, no generated text",
+        },
+    },
+    "level_text": "KERNEL SCOPE ONLY. The statement is a 2-safety property of whole compiler runs (repetitions, working directory, absolute locations, output directory, file-system order, goimports) and cannot be encoded. What is decided: the only way the ORDER OF A GO MAP can reach generated text. (1) From go/ssa of /repo's compiler packages the check computes every `range` over a map (today 5 sites in 4 functions) and is inconclusive when a site appears that is not in its list. (2) The one site whose order reaches output - the module list of the HTML index (transitiveIncludes: transitive includes collected in a map, appended in map order, sort.Sort by module name) - is executed twice by gose on include graphs of 2..3 (4) files whose module names are chosen from a set (so that files in different directories may share a name), with EVERY iteration order of every map explored independently in both executions (self-composition): both runs must list the modules in the same order. Outside (not claimed): everything else in the statement - cwd / path / output-directory independence, time stamps, goimports, the dart pubspec site (argued, not executed), run-to-run state of the globals package.",
+    "level_note": "Trusted: go/ssa, gose interpreter (map iteration orders are engine decisions), z3. sort.Sort is executed from its real SSA.",
+    "bounds": {"quick": "include graphs of 2..3 files, 3 candidate module names, all map iteration orders in two executions", "thorough": "up to 4 files"},
+    "assumptions": ["map iteration is the only order-nondeterminism of the listed functions (no goroutines, time or randomness: they are sequential pure functions)"],
+}
+
 OVERLAYS = {}
 
 HOOK_COMMITS = []
 
 NOT_APPLICABLE = {
     "C10": "The property is about the pigeon-generated PEG interpreter applied to arbitrary IDL text and a render/parse round trip for which no renderer exists; the recogniser (rule tables built in init, backtracking matcher over interface{} stacks, regexp, strconv.Unquote) has no bounded SMT encoding within reach and path-by-path symbolic execution explodes at every ordered choice. See DESIGN.md §7.",
-    "C19": "2-safety hyper-property of whole compiler runs (map-iteration seeds, cwd, absolute paths, time, file-system order, goimports); needs the complete generators and their file I/O, which the engine cannot encode; the anchored pure helpers contain no map iteration for a solver to decide. See DESIGN.md §7.",
 }
